@@ -63,8 +63,12 @@ class SlotType(BitsInterface):
     @staticmethod
     def from_bits(bits: bitarray) -> "SlotType":
         assert len(bits) == 20, "SlotType must be 20 bits"
-        return SlotType(
+        slot_type = SlotType(
             colour_code=ba2int(bits[:4]),
             data_type=ba2int(bits[4:8]),
             parity=ba2int(bits[8:]),
         )
+        # parity of received word is checked on the received bits, not on re-serialised fields
+        # (zero parity is re-generated and reserved data types are folded by the constructor)
+        slot_type.fec_parity_ok = Golay2087.check(bits)
+        return slot_type
